@@ -161,6 +161,18 @@ def callStr : Mpi.Call → String
   | .free h => s!"fr {hStr h}"
   | .use h => s!"use {hStr h}"
 
+/-- canonical form of the call log: the stride of an hvector and the extent of the following resized are compared only for
+    levels with at least two elements of a non-empty view (the stride of a dimension of size 0 or 1 is not determined by
+    the view, cf. C01).  The i-th hvector call belongs to level D-1-i. -/
+def canonCalls (sizes : List Int) (empty : Bool) : List Mpi.Call → Nat → Bool → List String
+  | [], _, _ => []
+  | .hvector c b s o n :: cs, nhv, _ =>
+    let relevant := !empty && decide (nhv < sizes.length) && decide (sizes.getD (sizes.length - 1 - nhv) 0 ≥ 2)
+    (if relevant then s!"hv {c} {b} {s} {hStr o} {hStr n}" else s!"hv {c} {b} _ {hStr o} {hStr n}") :: canonCalls sizes empty cs (nhv + 1) relevant
+  | .resized o lb e n :: cs, nhv, relevant =>
+    (if relevant then s!"rs {hStr o} {lb} {e} {hStr n}" else s!"rs {hStr o} {lb} _ {hStr n}") :: canonCalls sizes empty cs nhv relevant
+  | c :: cs, nhv, relevant => callStr c :: canonCalls sizes empty cs nhv relevant
+
 /-- created (derived) datatypes, of which freed exactly once, never freed; erroneous calls -/
 def ledgerStr (L : Mpi.Ledger) : String :=
   let ks := (List.range L.next).filter fun k => !(L.recs k).builtin
@@ -179,11 +191,12 @@ def execMsg (v : View) (sz : Int) : String :=
     let ds := m.disps L1
     let L2 := L1.use m.sk.datatype
     let L3 := m.dtor L2
-    let calls := " ; ".intercalate (L3.log.reverse.map callStr)
+    let calls := " ; ".intercalate (canonCalls v.sizes (v.numElements == 0) L3.log.reverse 0 true)
     let packed := match Mpi.pack mem0 sz m.buf ds with
       | some xs => s!"pack {xs.length} :{ints' xs}"
       | none => "pack MISALIGNED"
-    s!"msg buf {m.buf} count {m.sk.count} | {calls} | {ledgerStr L3} | {packed}"
+    let buf := if v.numElements == 0 then "_" else toString m.buf   -- the buffer of a view without elements designates nothing
+    s!"msg buf {buf} count {m.sk.count} | {calls} | {ledgerStr L3} | {packed}"
 
 def mem1 : Int → Int := fun p => -1 - p
 
